@@ -3,9 +3,9 @@
 From Coq Require Import ZArith List.
 From PV Require Import Comb.FockModel Comb.FermiModel Comb.FermiProofs
   C17.FermiRepModel C17.FermiWalkProofs C17.FermiRepProofs C17.FermiParityProofs
-  C17.FermiBasisProofs C17.FermiSequenceProofs.
+  C17.FermiBasisProofs C17.FermiSequenceProofs C17.FermiNumberProofs.
 From mathcomp Require ssralg seq.
-From PV Require C17.FermiDetMC C17.FermiRepDetMC.
+From PV Require C17.FermiDetMC C17.FermiRepDetMC C17.FermiCompoundMC C17.FermiCompoundModelMC.
 Import ListNotations.
 Open Scope Z_scope.
 
@@ -77,6 +77,18 @@ Theorem C17_fermi_rep_numba_is_minor :
 Proof. exact FermiRepDetMC.fermi_rep_numba_is_det. Qed.
 Print Assumptions C17_fermi_rep_numba_is_minor.
 
+(* Cauchy-Binet consequence (CoqEAL's BinetCauchy): the compound matrix of a unitary is unitary.
+   For U with U * conj(U)^T = 1 (c = any ring involution/morphism playing the conjugation) and
+   increasing index functions f, g : 'I_n -> 'I_d, the model's Laplace minors satisfy
+   sum over increasing h of  lminor U f h * c (lminor U g h)  =  [f = g],  for all d and n *)
+Theorem C17_compound_of_unitary_is_unitary :
+  forall (R : ssralg.GRing.ComRing.type) (d n : nat) (c : FermiCompoundModelMC.conj_type R)
+         (Uf : Z -> Z -> ssralg.GRing.ComRing.sort R),
+  @FermiCompoundModelMC.is_unitary_fn R d c Uf ->
+  @FermiCompoundModelMC.compound_rows_orthonormal R d n c Uf.
+Proof. exact FermiCompoundModelMC.unitary_compound_unitary. Qed.
+Print Assumptions C17_compound_of_unitary_is_unitary.
+
 (* Ising-XX (entries j and 3-j of a table row) and two-mode squeezing (entries 0 and 3) connect
    vectors that agree outside the two gate modes and are complementary on them *)
 Theorem C17_pairs_differ_in_two_modes : forall d a b aux j,
@@ -124,6 +136,18 @@ Theorem C17_parity_conserved :
   sget A zero (run_program A zero one add mul opp d (S d) occ gs) i = zero.
 Proof. exact parity_conserved. Qed.
 Print Assumptions C17_parity_conserved.
+
+(* passive gates conserve the particle number: for every occupation input and every list of
+   passive gates (interferometers / beamsplitters / phase shifters on distinct modes below d,
+   cutoff d+1) the final state vector has no amplitude outside the input's number sector *)
+Theorem C17_passive_conserves_number :
+  forall (A : Type) (zero one : A) (add mul : A -> A -> A) (opp : A -> A),
+  (forall x, mul x zero = zero) -> add zero zero = zero ->
+  forall d occ gs i, length occ = d -> bits occ -> Forall (passive_wf A d) gs ->
+  0 <= i -> num d i <> sumZ occ ->
+  sget A zero (run_program A zero one add mul opp d (S d) occ gs) i = zero.
+Proof. exact passive_conserves_number. Qed.
+Print Assumptions C17_passive_conserves_number.
 
 (* the same invariant for any class of indices the gate tables respect *)
 Theorem C17_gates_keep_class :
